@@ -12,7 +12,9 @@ vars == <<l, nbad>>
 Judge(e) ==
     LET c == e.echo
         ans == Answers(c.op, c.src, c.dst, c.same = 1)
-    IN  IF e.ret \notin ans THEN "decision"
+    IN  IF c.op = "container" THEN ContainerVerdict(e)
+        ELSE IF c.op = "filter_new" THEN (IF e.ret = FilterNewAnswer(c.class) THEN "ok" ELSE "filter-new-decision")
+        ELSE IF e.ret \notin ans THEN "decision"
         ELSE IF e.ret # "ok" /\ e.dst # e.dst0 THEN "rejected-but-destination-touched"
         ELSE IF e.outd0 # e.outd1 THEN "wrote-outside-destination"
         ELSE "ok"
